@@ -6,6 +6,7 @@ import sys
 from .. import engine as E
 from .. import gen as G
 from ..oracle import M, P10, MODES, I128_MIN, in_i128, round_ratio
+from .. import knuth as K
 from . import arith as A
 from . import common as C
 
@@ -18,7 +19,9 @@ RULE = ("kernel requests `k_i256 x1 x2 m` (x1*x2 = q*m + r), `k_shdm x k m` (x*1
         "assembled from 64-bit limbs {0,1,2,2^63-1,2^63,2^63+1,2^64-2,2^64-1, random full, random short} so that "
         "every branch of the multi-word division is reached (hook counters: divisor below/above 2^64, high word >= "
         "divisor, each quotient-digit correction once and twice, both early exits, exact division with negative "
-        "sign, quotient overflow). Non-trivial = intermediate does not fit i128")
+        "sign, quotient overflow, running remainder exactly 2^64 after a correction of the first / second digit - "
+        "constructed algebraically in vf/knuth.py, probability 2^-64 otherwise - and the estimate test holding with "
+        "equality). Non-trivial = intermediate does not fit i128")
 BUILDS = {"quick": [("dev", ()), ("release", ())],
           "thorough": [("dev", ()), ("release", ()), ("o0-nochk", ()), ("release", ("packed",))]}
 REQUIRED_SITES = {"idiv64": 1000, "idiv64.y1": 20, "idiv128.hi_ge": 500, "knuth": 1000,
@@ -26,7 +29,8 @@ REQUIRED_SITES = {"idiv64": 1000, "idiv64.y1": 20, "idiv128.hi_ge": 500, "knuth"
                   "knuth.q0.dec1": 200, "knuth.q0.dec2": 10, "knuth.q0.break": 100,
                   "shdm.none": 200, "shdm.neg_pos": 200, "shdm.exact_neg": 50,
                   "i256.none": 200, "i256.neg": 200, "i256.exact_neg": 50,
-                  "mulr.wide": 100, "divr.less.wide": 100, "round_quot.overflow": 2}
+                  "mulr.wide": 100, "divr.less.wide": 100, "round_quot.overflow": 2,
+                  "knuth.q1.rhat_eq_b": 50, "knuth.q0.rhat_eq_b": 50, "knuth.q1.eq": 20, "knuth.q0.eq": 20}
 THOROUGH_SITE_FACTOR = 20
 BUDGET = {"quick": 25, "thorough": 400}
 N_RANDOM = {"quick": 16000, "thorough": 40000}
@@ -252,6 +256,9 @@ def gen(rng, tier, shard, batch):
             x2 = -((-(m + dm) << 128) // x1)
             if 0 < x2 <= M:
                 reqs.append("k_i256 %d %d %d" % (sg(rng, x1), sg(rng, x2), m))
+    # the 2^64 corners of the quotient-digit correction (constructed algebraically, see vf/knuth.py)
+    corner, _stats = K.corner_requests(rng, 12 if tier == "quick" else 30)
+    reqs += corner
     reqs.append("mode RoundHalfEven")
     per_mode = N_RANDOM[tier] // 16
     for mode in MODES:
